@@ -346,10 +346,16 @@ func (s *sim) rangeQuery() *core.Violation {
 		s.st.MarkNonTrivial()
 	}
 
-	if msg := model.CheckPage(matches, rules, uint64(num)*uint64(size), uint64(size), page); msg != "" {
-		// Diagnose: is the result exactly what "rules on uint64, *uint64 and
-		// *[]byte attributes are skipped" would give? Then that is the input
-		// class (one specific defect), whatever else the query contains.
+	// pageCheck compares one returned page with the reference; a wrong page is
+	// diagnosed: is it exactly what "rules on uint64, *uint64 and *[]byte
+	// attributes are skipped" would give for that kind of collection? Then that
+	// is the input class (one specific defect), whatever else the query contains.
+	pageCheck := func(kind string, page []string, clause, what string) *core.Violation {
+		msg := model.CheckPage(matches, rules, uint64(num)*uint64(size), uint64(size), page)
+		if msg == "" {
+			return nil
+		}
+
 		skipped := false
 
 		hyp := func(x, y *model.Rec) int {
@@ -390,12 +396,18 @@ func (s *sim) rangeQuery() *core.Violation {
 			return 0
 		}
 
+		c := cls
 		if model.CheckPageCmp(matches, hyp, "", uint64(num)*uint64(size), uint64(size), page) == "" && skipped {
-			cls = "rules-on-uint64-or-nullable-bytes-attributes-are-skipped"
+			c = "rules-on-uint64-or-nullable-bytes-attributes-are-skipped"
+			clause = "page-equals-reference"
 		}
 
-		return viol(p09, "page-equals-reference", "Range", cls, "%s\n    returned %q: %s\n    reference order (id breaking ties): %q\n    store: %s",
-			q, page, msg, model.SortedIDs(matches, rules), s.m.describe())
+		return viol(p09, clause, "Range", c, "%s%s\n    returned %q: %s\n    reference order (id breaking ties): %q\n    store: %s",
+			q, what, page, msg, model.SortedIDs(matches, rules), s.m.describe())
+	}
+
+	if v := pageCheck(kind, page, "page-equals-reference", ""); v != nil {
+		return v
 	}
 
 	if after := idsOf(col); strings.Join(after, "\x00") != strings.Join(before, "\x00") {
@@ -449,6 +461,12 @@ func (s *sim) rangeQuery() *core.Violation {
 		}
 
 		s.st.Inc("probe:permuted-order-checked")
+
+		// with id among the rules the order is total, so "the same result for every
+		// initial order" means: the permuted collection's page is the reference page too
+		if v := pageCheck("resources", pp, "order-independent-with-id", fmt.Sprintf(" on the same records held as wrapped structs in order %v", perm)); v != nil {
+			return v
+		}
 
 		if strings.Join(pp, "\x00") != strings.Join(page, "\x00") {
 			return viol(p09, "order-independent-with-id", "Range", cls, "%s returned %q, and %q for the same records in order %v", q, page, pp, perm)
